@@ -63,6 +63,7 @@ class Contract:
         self.pure = False
         self.entry_assume = []    # spec exprs assumed at entry in addition to requires (typing)
         self.relies_ = []         # [(Clause, reason)] assumed at call sites only
+        self.queue_rely_ = None   # (spec over x, reason): assumed of every item taken from a queue
         self.abstract_ = []       # (statement text prefix, reason): statements not modelled
         self.checks_ = []         # (statement text prefix, Clause): assertion before a statement
         self.ghost_before_ = []   # (statement text prefix, ghost local name, spec expr)
@@ -128,6 +129,13 @@ class Contract:
         (rely) condition whose guarantee side is proved elsewhere (named in `reason`). Listed in
         the evidence under trusted_base."""
         self.relies_.append((Clause(label, src, self.props), reason))
+        return self
+
+    def queue_rely(self, src, reason):
+        """Environment condition on every item this function takes from a queue (`x` = the item):
+        assumed where the item is taken, NOT proved here; the guarantee side is proved at the
+        producers' call sites (named in `reason`). Listed in the evidence under trusted_base."""
+        self.queue_rely_ = (src, reason)
         return self
 
     def raises(self, exc, when, ensures=None, props=None, label=None):
